@@ -8,17 +8,17 @@ NEXT Next
 CONSTANTS
   Files <- MCFiles
   FileOrder <- MCFileOrder
-  Pairs <- MCPairs4
-  TypeOf <- MCTypeOf4
+  Pairs <- MCPairs
+  TypeOf <- MCTypeOf
   RootTypes <- MCRoot
-  Edits <- MCEditsWide
+  Edits <- MCEditsDev
   HelperToks <- MCHelpers
-  ImportToks <- MCImportsAll
+  ImportToks <- MCImports
   CmtToks <- MCCmt
   NeverPruned <- MCNever
   Cfgs <- MCCfgs
-  ImpPairs <- MCPairs4
-  InitSchemas <- MCInit4
+  ImpPairs <- MCPairs
+  InitSchemas <- MCInit3
   MaxHist = 6
   Dev <- MCNoDev
 INVARIANTS TypeOK SchemaOK LayoutOK GenerateTotal GenIsFunction
